@@ -15,6 +15,10 @@ RULE = (
     "cell order) and coding clause (columns of one grouping factor independent and spanning all group-by-cell "
     "means of the effect expression).  Non-trivial: the effect expression contains a categorical variable or the "
     "grouping expression has more than one factor"
+    '  Added: Sum-coded effects, a plain integer grouping column, holed frames, a 6 x 7 cell frame, unordered '
+    'Categoricals with unsorted categories; the block clause on three successive new frames, on new frames '
+    'with an unseen level of g / of h (silent mode, every term read through matrix[name]) and on a second '
+    'design built from the same text on other data. '
 )
 ASSUMPTIONS = [
     "rank decisions by SVD with a gap check",
